@@ -13,6 +13,7 @@ E = {
  "E1": ("harness/e1.py", "scheduler: TLC model checking of spec/Scheduler.tla against spec/SchedObs.tla, schedule-exhaustive controlled executions of the real scheduler through the hooks, each validated by TLC against spec/SchedTrace.tla"),
  "E4": ("harness/e4.py", "life-cycle: histories of operations (calls, failing calls, setup, executors, re-runs, deep copies, compose, config reload, caching runs, restarts) on real DAG instances; every step validated by TLC against spec/Lifecycle.tla through spec/LifecycleTrace.tla"),
  "E2": ("harness/e2.py", "recorder and dataflow: generated describing functions (all argument forms, indexing, unpack_to, operators, and_/or_/not_, return shapes, nested DAGs, activation flags) run on the real library under random configurations; TLC evaluates the reference semantics spec/Dataflow.tla on every observation (spec/DfCheck.tla) and explores all schedules of the abstract results map (spec/DataflowMC.tla)"),
+ "E2C": ("harness/e2c.py", "compose: spec/Compose.tla evaluated by TLC (spec/CompCheck.tla) on compositions of generated flat programs run on the real library"),
  "E3": ("harness/e3.py", "graph algebra: spec/Selection.tla and spec/CompoundPriority.tla evaluated by TLC (spec/SelCheck.tla, spec/CpCheck.tla) on every observation of executor / setup / call selections, debug settings, priority tables and mc=1 orders made on the real library"),
 }
 CHECKS = {
@@ -37,6 +38,10 @@ CHECKS = {
         "trusted: TLC, the node_enter hook, the JSON encoding of values; bounds: generated programs up to 8 call sites and nesting depth 3, a closed value domain (ints, bools, None, strings, tuples, lists, dicts); real schedules are not controlled here (see E1)",
         "TLA+ reference semantics as executable oracle (TLC) over generated programs run on the real library + TLC model checking of schedule independence")
     for p in ["C01", "C10", "C20"]},
+ "C19": ("E2C",
+        "spec/Compose.tla defines, for a flat program, the closure the outputs need (stopping at the inputs), the caller errors and the evaluation with the supplied values substituted; thousands of (program, inputs, outputs, values) cases are run through compose on the real library and TLC compares error class, returned value and executed call sites with the specification (spec/CompCheck.tla); the original DAG is run before and after and must be unchanged",
+        "trusted: TLC, the node_enter hook; bounds: flat generated programs up to 6 call sites, 0-3 inputs or Ellipsis, 1-3 outputs, id and node-reference aliases",
+        "TLA+ specification of compose as executable oracle (TLC) over generated cases observed on the real library"),
 }
 checks = []
 for p in sorted(CHECKS):
